@@ -1,15 +1,15 @@
 // bounded stand-in driver (appended to acts/src/package/tests/subflow.rs of a scratch copy): property C15.
 // A calling act stays open until its child process has terminated and is then closed exactly once, in the way the child ended:
 // completed / error (with the child's code and message) / aborted / skipped; a missing target model fails the calling act.
-// 10 scenarios (incl. a calling act with declared outputs whose child errors / aborts): a timeout rule on the calling act finishing while the child is still open; the child's single irq act answered next / error(code) / abort / skip (the child then completes), a child script that throws (engine error, empty
+// 11 scenarios (incl. a calling act whose own catch takes the child's error; a calling act with declared outputs whose child errors / aborts): a timeout rule on the calling act finishing while the child is still open; the child's single irq act answered next / error(code) / abort / skip (the child then completes), a child script that throws (engine error, empty
 // code), a missing model at depth 1 and at depth 2.
 #[tokio::test]
 async fn verif_replay_hist_subflow_return() {
     use std::sync::{Arc, Mutex};
     let mut bad: Vec<String> = Vec::new();
     #[derive(Clone, Copy, Debug, PartialEq)]
-    enum Sc { Next, ErrorCode, Abort, Skip, ScriptThrows, Missing1, Missing2, TimeoutWhileChildOpen, ErrorCodeDeclaredOutputs, AbortDeclaredOutputs }
-    for sc in [Sc::Next, Sc::ErrorCode, Sc::Abort, Sc::Skip, Sc::ScriptThrows, Sc::Missing1, Sc::Missing2, Sc::TimeoutWhileChildOpen, Sc::ErrorCodeDeclaredOutputs, Sc::AbortDeclaredOutputs] {
+    enum Sc { Next, ErrorCode, Abort, Skip, ScriptThrows, Missing1, Missing2, TimeoutWhileChildOpen, ErrorCodeDeclaredOutputs, AbortDeclaredOutputs, ErrorCaughtByCallingAct }
+    for sc in [Sc::Next, Sc::ErrorCode, Sc::Abort, Sc::Skip, Sc::ScriptThrows, Sc::Missing1, Sc::Missing2, Sc::TimeoutWhileChildOpen, Sc::ErrorCodeDeclaredOutputs, Sc::AbortDeclaredOutputs, Sc::ErrorCaughtByCallingAct] {
         let target = if sc == Sc::Missing1 { "not_deployed" } else { "w2" };
         let mut main = Workflow::new().with_id("main").with_step(|step| step.with_id("step1"));
         if sc == Sc::TimeoutWhileChildOpen {
@@ -18,6 +18,9 @@ async fn verif_replay_hist_subflow_return() {
         } else if sc == Sc::ErrorCodeDeclaredOutputs || sc == Sc::AbortDeclaredOutputs {
             // the calling act declares an output: the child's error / abort must still close it
             main.steps[0].acts.push(Act::subflow(json!({ "to": target })).with_id("call1").with_output("result", json!(null)));
+        } else if sc == Sc::ErrorCaughtByCallingAct {
+            // the calling act declares a catch-all: the child's error is taken by it, its steps run, then the calling act completes (C06) -- once (C15)
+            main.steps[0].acts.push(Act::subflow(json!({ "to": target })).with_id("call1").with_catch(|c| c.with_step(|s| s.with_id("cs1"))));
         } else {
             main.steps[0].acts.push(Act::subflow(json!({ "to": target })).with_id("call1"));
         }
@@ -37,7 +40,7 @@ async fn verif_replay_hist_subflow_return() {
                 let mut options = Vars::new();
                 let action = match sc {
                     Sc::Next => EventAction::Next,
-                    Sc::ErrorCode | Sc::ErrorCodeDeclaredOutputs => { options.set(consts::ACT_ERR_CODE, "err1"); options.set(consts::ACT_ERR_MESSAGE, "sub workflow error"); EventAction::Error }
+                    Sc::ErrorCode | Sc::ErrorCodeDeclaredOutputs | Sc::ErrorCaughtByCallingAct => { options.set(consts::ACT_ERR_CODE, "err1"); options.set(consts::ACT_ERR_MESSAGE, "sub workflow error"); EventAction::Error }
                     Sc::Abort | Sc::AbortDeclaredOutputs => EventAction::Abort,
                     _ => EventAction::Skip,
                 };
@@ -62,10 +65,15 @@ async fn verif_replay_hist_subflow_return() {
         let call1 = proc.task_by_nid("call1").first().cloned();
         let st = call1.as_ref().map(|t| t.state());
         // a skipped act does not skip the child process: the child completes, so does the calling act
-        let want = match sc { Sc::Next | Sc::Skip => TaskState::Completed, Sc::Abort | Sc::AbortDeclaredOutputs => TaskState::Aborted, _ => TaskState::Error };
+        let want = match sc { Sc::Next | Sc::Skip | Sc::ErrorCaughtByCallingAct => TaskState::Completed, Sc::Abort | Sc::AbortDeclaredOutputs => TaskState::Aborted, _ => TaskState::Error };
         let mut diffs: Vec<String> = Vec::new();
         if st != Some(want.clone()) { diffs.push(format!("the calling act ends {st:?}, the child's ending asks for {want:?} (main process: {})", proc.state())); }
         if !proc.state().is_completed() { diffs.push(format!("the calling process is still {} 5 s after the child ended", proc.state())); }
+        if sc == Sc::ErrorCaughtByCallingAct {
+            let cs = proc.task_by_nid("cs1").first().map(|t| t.state());
+            if cs != Some(TaskState::Completed) { diffs.push(format!("the catch step of the calling act is {cs:?}")); }
+            if proc.state() != TaskState::Completed { diffs.push(format!("the calling process ends {} although the calling act's catch took the child's error", proc.state())); }
+        }
         if let Some(t) = &call1 {
             match sc {
                 Sc::ErrorCode | Sc::ErrorCodeDeclaredOutputs => { let e = t.err(); if e.as_ref().map(|e| e.ecode.as_str()) != Some("err1") { diffs.push(format!("the calling act does not carry the child's error code: {e:?}")); } }
